@@ -52,9 +52,12 @@ theorem sched_follows_source (s : St) (p : Pid) (v : Sess) (hk : (s.procs p).kin
   · intro h; unfold step; simp only [h]; split <;> simp
   · intro h; unfold step; simp [h]; intro hl; simp [hl]
 
-/-- **Create** (fix 078aa22): the new session is written with the per-key lock held and its release deferred; no exit leaks the lock -/
+/-- **Create** (fix 078aa22): the new session is written with the per-key lock held and its release deferred; no exit leaks the lock; the expiry handed to the store is
+    what is LEFT of the session's lifetime at the moment of (each attempt of) the write — counted from creation, however long the lock wait or earlier attempts took -/
 theorem create_writes_under_lock :
-    effects create = [.acquire {}, .storeCall "in.store.Write" ["r.Context()", "key", "encrypted", "sessionLifetime"] true [] { held := true, deferred := true }] ∧
+    effects create = [.acquire {}, .storeCall "in.store.Write" ["r.Context()", "key", "encrypted", "remaining"] true [] { held := true, deferred := true }] ∧
+    create.contains (.assign "remaining" "time.Until(metadata.Session.EndsAt)") = true ∧
+    create.contains (.call ["metadata"] "NewMetadata" ["tokenExpiresIn", "sessionLifetime"] []) = true ∧
     (events create).contains (.makeLock "key") = true ∧ noLeak create = true ∧ noUnknown create = true ∧ pcsOf (effects create) = [PC.lock, PC.write] := by decide
 
 /-- the write-back is ONE store call, "update", retried on transient faults but not when the entry is gone -/
